@@ -32,6 +32,11 @@ class LayerDefModel:
                 out.update(c[1])
         return out
 
+    def plain_patterns(self):
+        import re
+        return {c[1] for _, c in self.layers if c is not None and c[0] == "regex" and isinstance(c[1], str)
+                and re.fullmatch(r"[A-Za-z_]\w*(\.[A-Za-z_]\w*)*", c[1])}
+
     def shape(self):
         """Abstract state shape used for transition coverage."""
         kinds = []
@@ -60,6 +65,11 @@ class LayerDefModel:
             if self.assigned().intersection(names):
                 form = "list" if isinstance(args[0], list) else "str"
                 return MUST_REJECT, f"module-assigned-twice({form})"
+            if self.plain_patterns().intersection(names):
+                # an earlier layer is defined by a pattern that is nothing but this very name (no
+                # metacharacter but the dot): as a pattern it matches the module of that name, which
+                # would sit in two layers
+                return MUST_REJECT, "module-assigned-twice(pattern-layer-holds-the-same-name)"
             return FREE, "containing_modules"
         if m == "have_modules_with_names_matching":
             if not self.pending():
